@@ -46,6 +46,8 @@ structure DState where
   sess   : List DSess := []
   nex    : Nat := 0
   mon    : DMon := {}
+  evicts : List (String × String × Nat) := []   -- evictions the store reported in this record, not yet applied to the model
+  ptoks  : List String := []                    -- their tokens (echoed in the model's observation)
 
 def getSess (d : DState) (n : String) : Option DSess := d.sess.find? (·.name == n)
 
@@ -223,7 +225,7 @@ def renderDelta (old new : DState) (extra : List String) (snaps : List String) :
         snapTxt := snapTxt ++ [txt]
       | none => snapTxt := snapTxt ++ ["S" ++ n ++ "[?]"]
     let endTxt := (sortNat ends).map fun k => s!"x{k}."
-    return (" ".intercalate (byK opened ++ extra ++ apps ++ byK items ++ endTxt ++ snapTxt), cur)
+    return (" ".intercalate (byK opened ++ extra ++ apps ++ old.ptoks ++ byK items ++ endTxt ++ snapTxt), cur)
 
 /-- Apply labels to a session's connection, extending the exchange map when an exchange is created. -/
 def applyLabels (d : DState) (s : DSess) (ls : List (Label String)) : DState × DSess × Res :=
@@ -272,6 +274,28 @@ def settle (d : DState) (s : DSess) : DState × DSess :=
         let r := applyLabels d s [.cut ex]
         d := r.1; s := r.2.1
     return (d, s)
+
+/-- apply the evictions the store reported (`p:<sess>:<stream>:<first>`) to the sessions' connections -/
+def applyEvicts (d : DState) : DState :=
+  let d' := d.evicts.foldl (fun (acc : DState) (x : String × String × Nat) =>
+    match getSess acc x.1 with
+    | none => acc
+    | some s =>
+      let sid : Option SId := if x.2.1 == "t0" then some 0 else
+        match ((x.2.1.drop 1).toString.toNat?) with
+        | some n => s.names[n - 1]?
+        | none => none
+      match sid with
+      | none => acc
+      | some sid => putSess acc { s with conn := step s.conn (.evict sid x.2.2) }) d
+  { d' with evicts := [] }
+
+/-- `p:<sess>:<stream>:<first>` tokens -/
+def parsePurges (itoks : List String) : List (String × String × Nat) :=
+  itoks.filterMap fun t =>
+    match t.splitOn ":" with
+    | ["p", s, st, f] => f.toNat?.map fun n => (s, st, n)
+    | _ => none
 
 def mkCfg (d : DState) (stateless : Bool) : Cfg :=
   { stateless := stateless, jsonResponse := d.jsonM, hasStore := d.store, noSession := stateless }
@@ -468,11 +492,30 @@ def modelOp (d : DState) (toks : List String) : Option OpOut :=
         let w : Label String := .write msg ctx false
         let g : Label String := .get (parseHdr s (kvGet gargs "last")) (parseVer (kvGet gargs "hv")) (parseBudget (kvGet gargs "b"))
         if gn != n then { d := d, snaps := [n] } else
-        let (d1, s1, res) := applyLabels d s (if writeFirst then [w, g] else [g, w])
+        -- evictions reported in this record happen inside the write's `Append` (after the harness' park point).
+        -- When both touch the same stream the second party waits for the stream lock, so the forced order holds;
+        -- otherwise the parked party is simply overtaken: the other one runs to completion first.
+        let hdrG := parseHdr s (kvGet gargs "last")
+        let sameStream := ((route s.conn msg ctx).map (·.id)) == some hdrG.sid
+        let writeGoesFirst := if sameStream then writeFirst else !writeFirst
+        let (d1, s1, res) :=
+          if writeGoesFirst then
+            let db := applyEvicts d
+            match getSess db n with
+            | some sb => applyLabels db sb [w, g]
+            | none => (db, s, Res.na)
+          else
+            let (da, sa, _) := applyLabels d s [g]
+            let db := applyEvicts (putSess da sa)
+            match getSess db n with
+            | some sb => applyLabels db sb [w]
+            | none => (db, sa, Res.na)
         let s1 := if isCall && res == .ok then { s1 with calls := s1.calls ++ [(tag, ctx, false)] } else s1
         let (d2, s2) := settle d1 s1
         { d := putSess d2 s2, snaps := [n], tail := " w=" ++ showRes res isCall }
     | _ => none
+  | ["purge", _] => some { d := d }
+  | ["maxbytes", _] => some { d := d }
   | _ => none
 
 /-! ## monitor side (on the implementation's observation only)
@@ -597,7 +640,8 @@ def parseObs (d : DState) (toks : List String) (impl : String) : Mon.Obs String 
     sent := itoks.filterMap parseSent,
     snaps := itoks.filterMap fun t =>
       (parseSnap t).map fun (name, rows) =>
-        ({ sess := name, newProto := ((getSess d name).map (·.newProto)).getD false, rows := rows } : Mon.Snap String) }
+        ({ sess := name, newProto := ((getSess d name).map (·.newProto)).getD false, rows := rows } : Mon.Snap String),
+    purges := (parsePurges itoks).filterMap fun x => (parseT x.2.1).map fun n => (x.1, n, x.2.2) }
 
 def DMon.init (store jsonMode : Bool) : DMon := { core := Mon.init store jsonMode }
 
@@ -638,9 +682,15 @@ def engine (prop : String) : Engine DState where
       ({ d with cfg := some (mkCfg d (mode == "stateless")) }, { model := "ok" })
     | _ =>
       if d.cfg.isNone then (d, { model := "nocfg" }) else
+      -- evictions are choices of the store (they depend on byte sizes): the model takes them from the record
+      let itoks0 := words impl
+      let d := { d with evicts := parsePurges itoks0, ptoks := itoks0.filter (·.startsWith "p:") }
+      -- (they happen inside `Append`, before the new entry is added: for a plain op they take effect at its end —
+      -- nothing in it reads the store after an append —, the race ops place them between their two parties)
       match modelOp d toks with
       | none => (d, { model := "bad-op" })
       | some o =>
+        let o := { o with d := applyEvicts o.d }
         let endTxt := o.endsX.map fun k => s!"x{k}."
         -- handler-level exchanges end at once; their end tokens sort with the others by number
         let (body, dn) := renderDelta d o.d o.extra o.snaps
@@ -658,7 +708,7 @@ def engine (prop : String) : Engine DState where
         let crashed := impl.startsWith "panic" || (words impl).contains "w=panic" || (impl.splitOn "PANIC").length > 1
         let viol := if crashed then some ((if prop == "" then "C08" else prop) ++ ": the server panicked while handling this operation")
                     else mviol
-        ({ dn with mon := m }, { model := model, violated := viol })
+        ({ dn with mon := m, evicts := [], ptoks := [] }, { model := model, violated := viol })
 
 end Resume
 
